@@ -432,7 +432,59 @@ def run_calls(case):
             "outcome": "calls-ok" if not fails else "FAIL", "fails": fails}
 
 
+# ---------------------------------------------------------------- repeating alarms, several of them equal
+def run_repeating(case):
+    """('rp', provider, copies, how, repeat, step minutes, ack delta minutes | None): one repeating alarm held `copies` times
+    (as equal subcomponents, or the very same object added again): the active list is the sub-list of `times` whose
+    trigger is later than the acknowledgement - entry by entry."""
+    _, provider, copies, how, repeat, step, ackd = case
+    env.use_provider(provider)
+    fails = []
+    T = datetime(2024, 6, 1, 10, 0, tzinfo=UTC)
+    comp = Event()
+    comp.add("uid", "rp")
+    comp.start = T
+
+    def mk():
+        al = Alarm()
+        al.add("action", "DISPLAY")
+        al.TRIGGER = timedelta(0)
+        al.REPEAT = repeat
+        al.DURATION = timedelta(minutes=step)
+        return al
+    first = mk()
+    comp.add_component(first)
+    for _i in range(copies - 1):
+        if how == "equal-subcomponents":
+            comp.add_component(mk())
+    ack = None if ackd is None else T + timedelta(minutes=ackd)
+    try:
+        alarms = Alarms(comp)
+        if how == "same-object-again":
+            for _i in range(copies - 1):
+                alarms.add_alarm(first)
+        alarms.acknowledge_until(ack)
+        times = alarms.times
+        active = alarms.active
+        got_times = sorted(t.trigger for t in times)
+        want_times = sorted([T + timedelta(minutes=step * k) for k in range(repeat + 1)] * copies)
+        if got_times != want_times:
+            fails.append(fail("repeating:times", case, len(want_times), [str(x) for x in got_times][:8], 0))
+        want_active = [t for t in times if M.is_active(t.trigger, None, ack, None)]
+        if [id(t) for t in active] != [id(t) for t in want_active] and sorted(t.trigger for t in active) != sorted(t.trigger for t in want_active):
+            fails.append(fail("repeating:active-list", case, [str(t.trigger) for t in want_active], [str(t.trigger) for t in active], 0))
+        if any(not t.is_active() for t in active) or any(t.is_active() != M.is_active(t.trigger, None, ack, None) for t in times):
+            fails.append(fail("repeating:is_active-disagrees-with-the-list", case, "every listed time is active", [(str(t.trigger), t.is_active()) for t in active][:6], 0))
+        got = (len(times), len(active))
+    except Exception as e:  # noqa: BLE001
+        got = f"{type(e).__name__}: {e}"
+        fails.append(fail("repeating:raises", case, "times and active", got, 0))
+    return {"state": ("rp",) + tuple(case[1:]) + (repr(got),), "trans": 4, "nontrivial": True, "outcome": "repeating-ok" if not fails else "FAIL", "fails": fails}
+
+
 def replay(case):
+    if case[0] == "rp":
+        return run_repeating(case[:7])
     if case[0] == "k":
         return run_calls(case[:8])
     if case[0] == "m":
@@ -465,6 +517,17 @@ def run(ctx):
                                     yield ("r", provider, path, kind, local, "tb", c_i, s_i, nal)
 
     ctx.explore("decision-table rows", gen, run_case)
+
+    def gen_rep():
+        for provider in env.PROVIDERS:
+            for copies in (1, 2, 3):
+                for how in ("equal-subcomponents", "same-object-again"):
+                    for repeat in (1, 2, 5):
+                        for step in (10, -10):
+                            for ackd in (None, -60, -15, -10, -5, 0, 5, 10, 15, 25, 60):
+                                yield ("rp", provider, copies, how, repeat, step, ackd)
+
+    ctx.explore("repeating alarms, several of them equal", gen_rep, run_repeating)
 
     def gen_calls():
         for provider in env.PROVIDERS:
